@@ -55,6 +55,7 @@ Definition vm_faithful (pr : program) (M : vmodule) (fuel : nat) : Prop :=
   match run_ref fuel pr with
   | Done out ex => forall fv, run_vm fv M = VOutOfFuel \/ run_vm fv M = VDone out ex \/ exists o, run_vm fv M = VError ECallDepth o
   | Faulted FAssert out => forall fv, run_vm fv M = VOutOfFuel \/ run_vm fv M = VError EAssert out \/ exists o, run_vm fv M = VError ECallDepth o
+  | Faulted FOob out => forall fv, run_vm fv M = VOutOfFuel \/ run_vm fv M = VError EOob out \/ exists o, run_vm fv M = VError ECallDepth o
   | StuckO => False
   | _ => True
   end.
@@ -69,12 +70,17 @@ Proof.
       left; reflexivity.
     + destruct (run_vm fv M) eqn:E; try (right; right; exists o; rewrite <- H, <- E; apply run_vm_unique; congruence).
       left; reflexivity.
-  - destruct f; try exact I. intros fv.
-    destruct (vm_correct_assert pr M fuel out Hc Hs Hf Hr) as [[n H]|[n [o H]]].
-    + destruct (run_vm fv M) eqn:E; try (right; left; rewrite <- H, <- E; apply run_vm_unique; congruence).
-      left; reflexivity.
-    + destruct (run_vm fv M) eqn:E; try (right; right; exists o; rewrite <- H, <- E; apply run_vm_unique; congruence).
-      left; reflexivity.
+  - destruct f; try exact I; intros fv.
+    + destruct (vm_correct_assert pr M fuel out Hc Hs Hf Hr) as [[n H]|[n [o H]]].
+      * destruct (run_vm fv M) eqn:E; try (right; left; rewrite <- H, <- E; apply run_vm_unique; congruence).
+        left; reflexivity.
+      * destruct (run_vm fv M) eqn:E; try (right; right; exists o; rewrite <- H, <- E; apply run_vm_unique; congruence).
+        left; reflexivity.
+    + destruct (vm_correct_oob pr M fuel out Hc Hs Hf Hr) as [[n H]|[n [o H]]].
+      * destruct (run_vm fv M) eqn:E; try (right; left; rewrite <- H, <- E; apply run_vm_unique; congruence).
+        left; reflexivity.
+      * destruct (run_vm fv M) eqn:E; try (right; right; exists o; rewrite <- H, <- E; apply run_vm_unique; congruence).
+        left; reflexivity.
   - exact (wt_sound pr Hwt fuel Hr).
 Qed.
 
